@@ -88,6 +88,48 @@ func genChildCases(g *vlib.Rng, n int) []Case {
 	return out
 }
 
+type badKey struct {
+	tag string
+	key []byte
+}
+
+// badPubKeys: 33-byte strings that are NOT the compressed encoding of a curve point
+func badPubKeys() []badKey {
+	pk := func(first byte, x *big.Int) []byte { return append([]byte{first}, x.FillBytes(make([]byte, 32))...) }
+	pd := func(d int64) *big.Int { return new(big.Int).Add(refP, big.NewInt(d)) }
+	max := new(big.Int).Sub(new(big.Int).Lsh(big.NewInt(1), 256), big.NewInt(1))
+	G := refPub([]byte{1})
+	out := []badKey{
+		{"x=p+1", pk(2, pd(1))}, {"x=p+1-odd", pk(3, pd(1))}, {"x=p+2", pk(2, pd(2))}, {"x=2^256-1", pk(2, max)}, {"x=2^256-1-odd", pk(3, max)},
+		{"x=p", pk(2, pd(0))}, {"x=p+5-nonresidue", pk(2, pd(5))}, {"x=5-nonresidue", pk(2, big.NewInt(5))}, {"x=5-nonresidue-odd", pk(3, big.NewInt(5))},
+		{"x=0", pk(2, big.NewInt(0))}, {"first-byte-00", append([]byte{0}, G[1:]...)}, {"first-byte-04", append([]byte{4}, G[1:]...)}, {"first-byte-05", append([]byte{5}, G[1:]...)},
+	}
+	for _, b := range out {
+		if _, ok := refParse(b.key); ok {
+			panic("badPubKeys: " + b.tag + " is a curve point")
+		}
+	}
+	return out
+}
+
+// randBadPubKey: x >= p (about half of them with x mod p liftable, the class gocoin used to accept) or x < p off the curve
+func randBadPubKey(g *vlib.Rng) []byte {
+	for {
+		var x *big.Int
+		if g.Bool() {
+			span := new(big.Int).Sub(new(big.Int).Lsh(big.NewInt(1), 256), refP)
+			x = new(big.Int).Mod(new(big.Int).SetBytes(g.Bytes(8)), span)
+			x.Add(x, refP)
+		} else {
+			x = new(big.Int).Mod(new(big.Int).SetBytes(g.Bytes(40)), refP)
+		}
+		k := append([]byte{byte(2 + g.Intn(2))}, x.FillBytes(make([]byte, 32))...)
+		if _, ok := refParse(k); !ok {
+			return k
+		}
+	}
+}
+
 var reVar = regexp.MustCompile(`(?m)^\s*(m[_0-9p]*)_(pub|prv)(\d)\s+string\s*=\s*"([^"]+)"`)
 var reSeed = regexp.MustCompile(`(?m)^\s*masterhex(\d)\s+string\s*=\s*"([0-9a-f]+)"`)
 var reBip = regexp.MustCompile(`entropy:\s*"([0-9a-f]+)",\s*mnemonic:\s*"([a-z ]+)",\s*seed:\s*"([0-9a-f]+)"`)
@@ -139,6 +181,22 @@ func corpusCases(g *vlib.Rng) []Case {
 			out = append(out, Case{Kind: "entropy", Tag: "bad-vector", A: []string{hx([]byte(m[1]))}})
 		}
 	}
+	// BIP39 passphrases that are / are not in NFKD form: (as typed, NFKD form) - the second column is DATA from Unicode
+	// 14 (python3 unicodedata.normalize('NFKD', s)); known finding bip39-passphrase-not-nfkd
+	vm := hx([]byte("legal winner thank year wave sausage worth useful legal winner thank yellow"))
+	for _, pr := range [][2]string{
+		{"636166c3a9", "63616665cc81"},                       // "café" composed -> e + U+0301
+		{"63616665cc81", "63616665cc81"},                     // already decomposed
+		{"c3856e67737472c3b66d", "41cc8a6e677374726fcc886d"}, // "Ångström"
+		{"efbdb6efac81", "e382ab6669"},                       // half-width katakana KA, ligature fi (compatibility mappings)
+		{"c78620c2bd", "647acc8c2031e2818432"},               // U+01C6 dž, U+00BD one half
+		{"ed959c", "e18492e185a1e186ab"},                     // Hangul syllable -> jamo
+		{"e1ba9bcca3", "73cca3cc87"},                         // long s with dot above + dot below: reordering
+		{"c39f", "c39f"},                                     // sharp s: unchanged by NFKD
+		{"5452455a4f52", "5452455a4f52"},                     // TREZOR
+	} {
+		out = append(out, Case{Kind: "seednfkd", A: []string{vm, pr[0], pr[1]}})
+	}
 	// hand-made edges
 	for _, l := range []int{0, 1, 12, 15, 16, 17, 20, 24, 28, 31, 32, 33, 36, 40, 64} {
 		for _, fill := range []byte{0x00, 0xff, 0x80} {
@@ -167,11 +225,41 @@ func corpusCases(g *vlib.Rng) []Case {
 		out = append(out, Case{Kind: "dnpriv", A: []string{hx(ps[0]), hx(ps[1])}})
 	}
 	G := refPub(one)
-	out = append(out, Case{Kind: "dnpub", A: []string{hx(G), hx(one)}})                         // doubling
-	out = append(out, Case{Kind: "dnpub", A: []string{hx(G), hx(make([]byte, 32))}})            // + 0·G
+	out = append(out, Case{Kind: "dnpub", A: []string{hx(G), hx(one)}})                           // doubling
+	out = append(out, Case{Kind: "dnpub", A: []string{hx(G), hx(make([]byte, 32))}})              // + 0·G
 	out = append(out, Case{Kind: "dnpub", A: []string{hx(append([]byte{5}, G[1:]...)), hx(one)}}) // bad first byte
 	out = append(out, Case{Kind: "dnpub", A: []string{hx(append([]byte{4}, G[1:]...)), hx(one)}})
 	out = append(out, Case{Kind: "dnpub", A: []string{hx(G), hx(ff)}})
+	// extended PUBLIC keys whose key bytes are no curve point — finding xpub-noncanonical-x (fixed): ByteCheck ignored
+	// ParsePubkey's verdict and asked IsValid() of the point built from x mod p, so 02||(p+1) was imported, its Child(0)
+	// had a key of 33 zero bytes (no error) and that child's own xpub string was refused. Witnesses: x = p+1 (02 and
+	// 03), p+2, 2^256-1 and further x >= p with x mod p liftable; plus x >= p not liftable, x < p with x^3+7 a
+	// non-residue (5), x = p, first bytes 00/04/05, for all six public versions; as xpub strings (parse), as
+	// HDWallet values handed to Child, and as DeriveNextPublic operands.
+	for _, bk := range badPubKeys() {
+		for vi, ver := range privPrefixes {
+			if vi > 0 && bk.tag != "x=p+1" {
+				continue
+			}
+			x := &refXKey{version: refPubVersion[ver], depth: 1, child: 7, chain: make([]byte, 32), key: bk.key}
+			out = append(out, Case{Kind: "parse", Tag: "xpub-" + bk.tag, A: []string{hx([]byte(x.String()))}})
+			hw := &btc.HDWallet{Prefix: refPubVersion[ver], Depth: 1, I: 7, ChCode: make([]byte, 32), Key: bk.key}
+			for _, ci := range []uint32{0, 1, 0x7fffffff} {
+				out = append(out, Case{Kind: "child", Tag: "xpub-" + bk.tag, A: append(strings.Fields(wTok(hw)), fmt.Sprint(ci))})
+			}
+		}
+		out = append(out, Case{Kind: "dnpub", Tag: bk.tag, A: []string{hx(bk.key), hx(one)}})
+	}
+	// the documented junk region, reached on purpose (the real code is run and judged there too): G + (n-1)G = infinity
+	out = append(out, Case{Kind: "dnpub", Tag: "infinity", A: []string{hx(G), hx(nm1)}})
+	out = append(out, Case{Kind: "wif", Tag: "key-0", A: []string{hx(make([]byte, 32)), "128", "1"}})
+	out = append(out, Case{Kind: "wif", Tag: "key-n", A: []string{hx(nb(0)), "128", "1"}})
+	out = append(out, Case{Kind: "wifdec", Tag: "key-0", A: []string{hx([]byte(refB58Check(append(append([]byte{0x80}, make([]byte, 32)...), 1))))}})
+	for _, kk := range [][]byte{make([]byte, 32), nb(0)} {
+		hw := &btc.HDWallet{Prefix: btc.Private, ChCode: make([]byte, 32), Key: append([]byte{0}, kk...)}
+		out = append(out, Case{Kind: "child", Tag: "priv-key-0-mod-n", A: append(strings.Fields(wTok(hw)), "0")})
+		out = append(out, Case{Kind: "child", Tag: "priv-key-0-mod-n", A: append(strings.Fields(wTok(hw)), "2147483648")})
+	}
 	for _, v := range []int{0x80, 0xef, 0xb0, 0, 255} {
 		out = append(out, Case{Kind: "wif", A: []string{hx(one), fmt.Sprint(v), "1"}})
 		out = append(out, Case{Kind: "wif", A: []string{hx(nm1), fmt.Sprint(v), "0"}})
@@ -212,6 +300,9 @@ func corpusCases(g *vlib.Rng) []Case {
 		{Type: 4, KeyCnt: 1, AType: "p2kh", File: pw, HdPath: "m/0''", HdSubs: 1},
 		{Type: 2, KeyCnt: 1, AType: "p2kh", File: pw, HdPath: "m/0'", HdSubs: 1},
 		{Type: 3, KeyCnt: 2, AType: "p2kh", File: pw, HdPath: "m/0'", HdSubs: 1, Scrypt: 2},
+		{Type: 3, KeyCnt: 2, AType: "tap", File: pw, HdPath: "m/0'", HdSubs: 1},
+		{Type: 3, KeyCnt: 2, AType: "segwit", File: pw, HdPath: "m/0'", HdSubs: 1, Testnet: true},
+		{Type: 3, KeyCnt: 1, AType: "bech32", File: pw, HdPath: "m/0'", HdSubs: 1, Ltc: true},
 		// the password is typed (no seed file); with and without a seed= prefix; saved (y), declined (n), -1, -xprv, -p;
 		// re-entered differently; nothing typed. After "y" the next run reads the saved file: same keys.
 		{Type: 4, KeyCnt: 2, AType: "p2kh", File: pw, HdPath: "m/0'/0", HdSubs: 1, Seed: hx([]byte("cfg-PREFIX:")), Ask: 1},
@@ -285,7 +376,7 @@ func genParseWif(g *vlib.Rng, n int) []Case {
 		case 0, 1: // extended keys with arbitrary (also unknown) prefixes, re-checksummed
 			x := &refXKey{version: privPrefixes[g.Intn(6)], depth: byte(g.Intn(256)), child: uint32(g.U64()), chain: g.Bytes(32), key: append([]byte{0}, g.Bytes(32)...)}
 			copy(x.fp[:], g.Bytes(4))
-			switch g.Intn(4) {
+			switch g.Intn(5) {
 			case 0:
 				x = refNeuter(x)
 			case 1:
@@ -294,6 +385,13 @@ func genParseWif(g *vlib.Rng, n int) []Case {
 				x.version = refPubVersion[x.version]
 				x.key = append([]byte{byte(g.Pick(2, 3, 4, 0))}, g.Bytes(32)...)
 				x.key[1] &= 0x7f
+			case 3: // public prefix, x >= p (liftable mod p or not) or x < p off the curve; sometimes a real point
+				x.version = refPubVersion[x.version]
+				if g.Chance(1, 4) {
+					x.key = refPub(g.Bytes(32))
+				} else {
+					x.key = randBadPubKey(g)
+				}
 			}
 			s := x.String()
 			if g.Chance(1, 3) {
@@ -545,7 +643,8 @@ func main() {
 		"SHA-256, SHA-512, RIPEMD-160, HMAC, PBKDF2 are modelled, not verified (Lean implementations compared with Go's on every run); scrypt is opaque (computed by the repository's package and handed to the model)",
 		"the elliptic curve in model and theorems is the reference curve of Base/Secp.lean; gocoin's limb arithmetic is tied to it by this run only (and is the subject of C08)",
 		"the reference-curve facts used by pub_commutes / ckd_pub_spec / derive_is_bip32 ((a+k mod n)G = aG + kG, parse∘serP = id on curve points, jG finite for 0<j<n) are no longer assumed: they are derived in Proofs/C14Curve.lean from C03's reference_curve_group_law / generator_order / parsePubkey_ser33 (Mathlib's Weierstrass group law; p, n prime by C08_Primes); serialize/WIF round trips import C15's Base58 decode∘encode = id",
-		"outside the model: private keys ≡ 0 mod n and sums equal to the point at infinity (gocoin serialises stale coordinates there), public keys with x ≥ p or x off the curve, non-ASCII white space in mnemonics, typed passwords longer than one 1024-byte terminal read, .others imports, the -p39 prompt, -encrypt/-decrypt",
+		"outside the model (answer `outside`): private keys ≡ 0 mod n and sums equal to the point at infinity (gocoin serialises stale coordinates there) - the real code is RUN there all the same and judged by the BIP32 reference wherever that defines a result or demands a refusal; only the junk value is uncompared. Public keys with x ≥ p or x off the curve are NOT outside any more: code (since fix 54b4684a/e70a8ce2) and model refuse them / panic, corpus badPubKeys",
+		"not covered: non-ASCII white space in mnemonics, typed passwords longer than one 1024-byte terminal read, .others imports, the -p39 prompt (passphrases at the API level only; NFKD: known finding bip39-passphrase-not-nfkd), -encrypt/-decrypt",
 	}
 	r.Extra["observations"] = []string{
 		"HDWallet.Child never skips an index: BIP32 says I_L >= n or k_i = 0 makes index i invalid; Child reduces mod n and returns a key (theorem child_priv_never_skips; probability about 2^-127 per index; ckd_priv_spec / ckd_pub_spec are stated under exactly the guard 'CKD is defined')",
@@ -554,6 +653,8 @@ func main() {
 		"bip39.MnemonicToByteArray splits on single spaces while its validity check uses strings.Fields: with tabs / double spaces it indexes the word map with \"\" (index 0) and reports a checksum error for a sentence EntropyFromMnemonic accepts; the wallet normalises white space before calling it",
 		"wallet -stdin with more than 1024 password bytes panics in getpass (pass[:n] on a [1024]byte array); the seed-file path reads at most 1024 bytes",
 		"atype=tap lists OP_1 <x-only internal key> without the BIP341/BIP86 tweak (gocoin's own convention; outside this property)",
+		"StringWallet imports xprv strings whose key byte 0 is not 00 or whose scalar is 0 / >= n (BIP32 test vector 5 calls them invalid); the model mirrors it (histogram parse-ok-xprv-key-outside-1..n-1)",
+		"DeriveNextPublic still returns the zero-filled buffer for an operand that is no curve point (only HDWallet.Child was changed to panic); the harness requires that what comes back does not read as a public key",
 	}
 	if err := buildWallet(); err != nil {
 		fmt.Fprintln(os.Stderr, err)
@@ -628,7 +729,12 @@ func main() {
 			cases = append(cases, Case{Kind: "dnpriv", A: []string{hx(p), hx(s)}})
 			continue
 		}
-		if gd.Chance(1, 3) {
+		if gd.Chance(1, 8) { // operands that are no curve point (x >= p, off the curve): as DeriveNextPublic input and as xpub parent
+			bk := randBadPubKey(gd)
+			cases = append(cases, Case{Kind: "dnpub", Tag: "bad-point", A: []string{hx(bk), hx(s)}})
+			hw := &btc.HDWallet{Prefix: refPubVersion[privPrefixes[gd.Intn(6)]], Depth: byte(gd.Intn(256)), I: uint32(gd.U64()), ChCode: gd.Bytes(32), Key: bk}
+			cases = append(cases, Case{Kind: "child", Tag: "bad-point", A: append(strings.Fields(wTok(hw)), fmt.Sprint(edgeIndex(gd)&0x7fffffff))})
+		} else if gd.Chance(1, 3) {
 			cases = append(cases, Case{Kind: "dnpub", A: []string{hx(refPub(p)), hx(s)}})
 		} else {
 			cases = append(cases, Case{Kind: "dnpriv", A: []string{hx(p), hx(s)}})
